@@ -1,7 +1,1477 @@
 package main
 
-import "math/big"
+import (
+	"bytes"
+	"encoding/binary"
+	"encoding/json"
+	"fmt"
+	"math/big"
+	"sort"
+	"strings"
+	"time"
+
+	sdk "github.com/cosmos/cosmos-sdk/types"
+
+	"github.com/irismod/service/types"
+)
+
+// ---------------------------------------------------------------------------
+// Step-relational monitors (C02 C04 C05 C06 C07 C08 C09 C10).
+//
+// Everything here is computed from two raw store scans (before / after the
+// step), the bank balances before / after, the op and its result, and the
+// slash events of the step; nothing is taken from the model. The per-history
+// memory (which request was issued with which fee and how it was settled, at
+// which heights a context's counter moved, the totals ever in force) lives in
+// relState.
+// ---------------------------------------------------------------------------
+
+type reqTrack struct {
+	fee      *big.Int
+	consumer string // raw bytes
+	provider string
+	svc      string
+	super    bool
+	issuedH  int64
+	exp      int64
+	settled  string // "" | "earn" | "refund-malformed" | "refund-expired"
+	settledH int64
+	gone     bool // all records seen removed
+	k3       bool
+}
+
+type relState struct {
+	reqs  map[string]*reqTrack
+	k3ctx map[string]bool
+	k3any bool
+}
+
+func (m *Monitors) relInit() *relState {
+	if m.rel == nil {
+		m.rel = &relState{reqs: map[string]*reqTrack{}, k3ctx: map[string]bool{}}
+	}
+	return m.rel
+}
+
+// noteK3 remembers the contexts on the module-registered service (known finding K3).
+func (m *Monitors) noteK3(s *Snap) {
+	st := m.relInit()
+	for id, rc := range s.Ctxs {
+		if rc.ServiceName == modSvc && !st.k3ctx[id] {
+			st.k3ctx[id] = true
+			st.k3any = true
+		}
+	}
+}
+
+// tagCtx gives the known-finding prefix for failures that stem from a context.
+func (m *Monitors) tagCtx(id string) string {
+	if m.rel != nil && m.rel.k3ctx[id] {
+		return "K3: "
+	}
+	return ""
+}
+
+func big0() *big.Int { return new(big.Int) }
+
+func getBal(mp map[int64]*big.Int, at int64) *big.Int {
+	if v, ok := mp[at]; ok {
+		return v
+	}
+	return big0()
+}
+
+func addTo(mp map[int64]*big.Int, at int64, x *big.Int) {
+	if mp[at] == nil {
+		mp[at] = big0()
+	}
+	mp[at].Add(mp[at], x)
+}
+
+// floorMul = floor(x * rate) for a rate given as decimal text (18 decimals), exact.
+func floorMul(x *big.Int, rate string) *big.Int {
+	r := decToScaled(rate)
+	p := new(big.Int).Mul(x, r)
+	return p.Quo(p, prec) // x, r >= 0
+}
+
+func ridHeight(rid string) int64 { return int64(binary.BigEndian.Uint64([]byte(rid[48:56]))) }
+func ridIndex(rid string) int64 {
+	return int64(int16(binary.BigEndian.Uint16([]byte(rid[56:58]))))
+}
+
+func sortedStrs(set map[string]bool) []string {
+	var l []string
+	for k := range set {
+		l = append(l, k)
+	}
+	sort.Strings(l)
+	return l
+}
+
+// feeFromText recomputes a fee from the PUBLISHED pricing text of a binding,
+// the block time and the volume: max(1, trunc(base * dT * dV)) with sdk.Dec.
+// dT: discount of the window with start <= t < end, else 1. dV: discount of
+// the last tier whose volume is <= v, else 1.
+func feeFromText(text string, now time.Time, vol uint64) (fee sdk.Int, base sdk.Int, ok bool) {
+	var raw types.RawPricing
+	if err := json.Unmarshal([]byte(text), &raw); err != nil {
+		return fee, base, false
+	}
+	dc, err := sdk.ParseDecCoin(raw.Price)
+	if err != nil {
+		c, err := sdk.ParseCoin(raw.Price)
+		if err != nil {
+			return fee, base, false
+		}
+		dc = sdk.NewDecCoinFromCoin(c)
+	}
+	if dc.Denom != denom {
+		return fee, base, false
+	}
+	base = dc.Amount.TruncateInt()
+	dT := sdk.OneDec()
+	for _, p := range raw.PromotionsByTime {
+		if !now.Before(p.StartTime) && now.Before(p.EndTime) {
+			dT = p.Discount
+			break
+		}
+	}
+	dV := sdk.OneDec()
+	for _, p := range raw.PromotionsByVolume {
+		if p.Volume <= vol {
+			dV = p.Discount
+		}
+	}
+	price := sdk.NewDecFromInt(base).Mul(dT).Mul(dV)
+	if price.LT(sdk.OneDec()) {
+		price = sdk.OneDec()
+	}
+	return price.TruncateInt(), base, true
+}
+
+// batchPlan is the independently recomputed decision of the new-batch handler for one context.
+type batchPlan struct {
+	id     string
+	rc     types.RequestContext // record as the handler sees it
+	kind   string               // "idle" (not running) | "complete" (total reached) | "skip" | "pause" | "issue"
+	provs  []string             // eligible providers in order
+	fees   []*big.Int           // price per eligible provider (what the filter sums)
+	total  *big.Int
+	reason string
+}
+
+// stepFacts: what happened in the step, read off the two snapshots.
+type stepFacts struct {
+	H        int64
+	now      time.Time
+	isEB     bool
+	issued   []string // request ids that appeared
+	deact    []string // ids that were active before and are not active after
+	answered string   // id accepted by a respond op ("" if none)
+	malf     bool     // the accepted response carried a non-empty schema-invalid output
+	k3step   bool     // the step runs the module-service call path
+}
+
+func (m *Monitors) facts(o *Op, res string, pre *Pre, s *Snap) *stepFacts {
+	f := &stepFacts{H: pre.h, now: time.Unix(0, pre.now).UTC(), isEB: o.Kind == "endblock"}
+	for rid := range s.Reqs {
+		if _, ok := pre.snap.Reqs[rid]; !ok {
+			f.issued = append(f.issued, rid)
+		}
+	}
+	sort.Strings(f.issued)
+	post := map[string]bool{}
+	for _, rid := range s.ActID {
+		post[rid] = true
+	}
+	for _, rid := range pre.snap.ActID {
+		if !post[rid] {
+			f.deact = append(f.deact, rid)
+		}
+	}
+	sort.Strings(f.deact)
+	if o.Kind == "respond" && res == "ok" {
+		f.answered = string(reqID(o.Tx, o.Idx, o.Batch, o.RHeight, o.RIndex))
+		f.malf = o.Out != 0 && !o.OutValid
+	}
+	if o.Kind == "call" && m.r.a.svcName[o.Svc] == modSvc && o.NameOverride == "" {
+		f.k3step = true
+	}
+	return f
+}
 
 // relational evaluates the step predicates (C02 C04 C05 C06 C07 C08 C09 C10).
 func (m *Monitors) relational(o *Op, res string, pre *Pre, s *Snap, bal map[int64]*big.Int, esc, dep, fee, sup *big.Int) {
+	st := m.relInit()
+	f := m.facts(o, res, pre, s)
+
+	m.noteK3(s)
+
+	// register newly issued requests before the checks use them
+	m.c02Issue(f, pre, s)
+
+	var plans []*batchPlan
+	refunds := map[int64]*big.Int{} // expiry refunds of this EndBlock, per consumer atom
+	if f.isEB {
+		for _, rid := range f.deact {
+			if t := st.reqs[rid]; t != nil && !t.super {
+				addTo(refunds, m.r.a.atomOfAddr([]byte(t.consumer)), t.fee)
+			}
+		}
+		plans = m.planBatches(f, pre, s, refunds)
+	}
+
+	m.c08respond(o, res, f, pre, s)
+	m.c02(o, res, f, pre, s, bal, esc, fee)
+	m.c08window(f, s)
+	m.c04(o, res, f, pre, s, dep, sup)
+	m.c05(o, res, f, pre, s, bal)
+	m.c06(f, pre, s, plans)
+	m.c07(o, res, f, pre, s, bal, refunds)
+	m.c09(o, res, f, pre, s, plans)
+	m.c10(o, res, f, pre, s)
+	m.c16finished(f, pre, s)
+
+	// forget nothing, but note the requests whose records are all gone
+	for rid, t := range st.reqs {
+		if _, ok := s.Reqs[rid]; !ok && t.settled != "" {
+			t.gone = true
+		}
+	}
+}
+
+// ---------------------------------------------------------------------------
+// C02
+// ---------------------------------------------------------------------------
+
+func (m *Monitors) c02Issue(f *stepFacts, pre *Pre, s *Snap) {
+	st := m.rel
+	for _, rid := range f.issued {
+		q := s.Reqs[rid]
+		id := ridCtx(rid)
+		tag := m.tagCtx(id)
+		if _, seen := st.reqs[rid]; seen {
+			m.fail("C02", "%srequest id %s created a second time", tag, ridLine([]byte(rid)))
+			continue
+		}
+		rc, ok := s.Ctxs[id]
+		if !ok {
+			// request of a missing context: C16 reports it; money is checked against the record only
+			rc = pre.snap.Ctxs[id]
+		}
+		st.reqs[rid] = &reqTrack{fee: amountOf(q.ServiceFee), consumer: string(rc.Consumer), provider: string(q.Provider), svc: rc.ServiceName,
+			super: rc.SuperMode, issuedH: q.RequestHeight, exp: q.ExpirationHeight, k3: st.k3ctx[id]}
+		if !f.isEB && !f.k3step {
+			m.fail("C02", "%srequest %s appeared outside an EndBlock", tag, ridLine([]byte(rid)))
+		}
+	}
+}
+
+func (m *Monitors) c02(o *Op, res string, f *stepFacts, pre *Pre, s *Snap, bal map[int64]*big.Int, esc, feeColl *big.Int) {
+	st := m.rel
+	a := m.r.a
+	expBal := map[int64]*big.Int{}
+	expEsc, expFee := big0(), big0()
+	expEarn := map[string]*big.Int{}
+	nontrivial := 0
+	stepTag := ""
+	if f.k3step {
+		stepTag = "K3: "
+	}
+
+	// stored fees never change
+	for rid, q := range s.Reqs {
+		if t := st.reqs[rid]; t != nil && amountOf(q.ServiceFee).Cmp(t.fee) != 0 {
+			m.fail("C02", "%sfee of request %s changed from %s to %s", m.tagCtx(ridCtx(rid)), ridLine([]byte(rid)), t.fee, amountOf(q.ServiceFee))
+		}
+	}
+
+	// issued: consumer pays the fee into escrow
+	for _, rid := range f.issued {
+		t := st.reqs[rid]
+		if t == nil {
+			continue
+		}
+		if t.k3 {
+			stepTag = "K3: "
+		}
+		nontrivial++
+		addTo(expBal, a.atomOfAddr([]byte(t.consumer)), new(big.Int).Neg(t.fee))
+		expEsc.Add(expEsc, t.fee)
+	}
+
+	// deactivated: each must be explained by exactly one settlement of this step
+	for _, rid := range f.deact {
+		t := st.reqs[rid]
+		tag := m.tagCtx(ridCtx(rid))
+		if t == nil {
+			m.fail("C02", "%sactive request %s was never seen being issued", tag, ridLine([]byte(rid)))
+			continue
+		}
+		if t.k3 {
+			stepTag = "K3: "
+		}
+		if t.settled != "" {
+			m.fail("C02", "%srequest %s settled twice: %s at height %d and again now", tag, ridLine([]byte(rid)), t.settled, t.settledH)
+			continue
+		}
+		nontrivial++
+		switch {
+		case rid == f.answered && f.malf:
+			t.settled = "refund-malformed"
+			addTo(expBal, a.atomOfAddr([]byte(t.consumer)), t.fee)
+			expEsc.Sub(expEsc, t.fee)
+		case rid == f.answered:
+			t.settled = "earn"
+			tax := floorMul(t.fee, m.r.cfg.Tax)
+			expEsc.Sub(expEsc, tax)
+			expFee.Add(expFee, tax)
+			e := new(big.Int).Sub(t.fee, tax)
+			if expEarn[t.provider] == nil {
+				expEarn[t.provider] = big0()
+			}
+			expEarn[t.provider].Add(expEarn[t.provider], e)
+			if string(a.addr(o.Who)) != t.provider {
+				m.fail("C02", "%srequest %s settled in favour of %d, not its provider", tag, ridLine([]byte(rid)), o.Who)
+			}
+			if f.H > t.exp {
+				m.fail("C02", "%srequest %s paid out at height %d, after its expiry block %d", tag, ridLine([]byte(rid)), f.H, t.exp)
+			}
+		case f.isEB:
+			t.settled = "refund-expired"
+			if f.H != t.exp {
+				m.fail("C02", "%srequest %s expired in the EndBlock of %d, its expiry block is %d", tag, ridLine([]byte(rid)), f.H, t.exp)
+			}
+			if !t.super {
+				addTo(expBal, a.atomOfAddr([]byte(t.consumer)), t.fee)
+				expEsc.Sub(expEsc, t.fee)
+			}
+		default:
+			t.settled = "vanished"
+			m.fail("C02", "%srequest %s stopped being pending in a %s step without a settlement", tag, ridLine([]byte(rid)), o.Kind)
+		}
+		t.settledH = f.H
+	}
+	if f.k3step && res == "ok" {
+		// the module-service path issues and answers in one message: the request never shows up as active
+		for _, rid := range f.issued {
+			if t := st.reqs[rid]; t != nil && t.settled == "" {
+				if _, act := indexOf(s.ActID, rid); !act {
+					t.settled = "earn"
+					t.settledH = f.H
+					tax := floorMul(t.fee, m.r.cfg.Tax)
+					expEsc.Sub(expEsc, tax)
+					expFee.Add(expFee, tax)
+					if expEarn[t.provider] == nil {
+						expEarn[t.provider] = big0()
+					}
+					expEarn[t.provider].Add(expEarn[t.provider], new(big.Int).Sub(t.fee, tax))
+				}
+			}
+		}
+	}
+	if f.answered != "" {
+		if _, was := indexOf(pre.snap.ActID, f.answered); !was {
+			m.fail("C02", "%sresponse to %s accepted although the request was not pending", m.tagCtx(ridCtx(f.answered)), ridLine([]byte(f.answered)))
+		}
+	}
+	// a settled request never becomes pending again
+	for _, rid := range s.ActID {
+		if t := st.reqs[rid]; t != nil && t.settled != "" {
+			m.fail("C02", "%srequest %s pending again after %s", m.tagCtx(ridCtx(rid)), ridLine([]byte(rid)), t.settled)
+		}
+	}
+
+	// withdraw: earnings leave the escrow to the withdrawal address of the signer
+	earnPre, earnPost := big0(), big0()
+	for _, e := range pre.snap.Earned {
+		earnPre.Add(earnPre, e)
+	}
+	for _, e := range s.Earned {
+		earnPost.Add(earnPost, e)
+	}
+	moneyStep := f.isEB || f.answered != "" || (f.k3step && res == "ok")
+	if o.Kind == "withdraw" && res == "ok" {
+		paid := new(big.Int).Sub(earnPre, earnPost)
+		expEsc.Sub(expEsc, paid)
+		dest := string(a.addr(o.Owner))
+		if w, ok := pre.snap.Wd[dest]; ok {
+			dest = w
+		}
+		if d := new(big.Int).Sub(esc, pre.esc); d.Cmp(expEsc) != 0 {
+			m.fail("C02", "withdraw moved %s out of escrow, earnings fell by %s", new(big.Int).Neg(d), paid)
+		}
+		at := a.atomOfAddr([]byte(dest))
+		if d := new(big.Int).Sub(getBal(bal, at), getBal(pre.bal, at)); d.Cmp(paid) != 0 {
+			m.fail("C02", "withdraw of %s credited %s to the withdrawal address %d", paid, d, at)
+		}
+		for p, e := range pre.snap.Earned {
+			now := s.Earned[p]
+			if now == nil {
+				now = big0()
+			}
+			if now.Cmp(e) > 0 {
+				m.fail("C02", "earnings of %d grew in a withdraw", a.atomOfAddr([]byte(p)))
+			}
+			if now.Cmp(e) != 0 && pre.snap.Owners[p] != string(a.addr(o.Owner)) {
+				m.fail("C02", "withdraw by %d took the earnings of %d, owned by someone else", o.Owner, a.atomOfAddr([]byte(p)))
+			}
+		}
+		if feeColl.Cmp(pre.fee) != 0 {
+			m.fail("C02", "fee collector changed in a withdraw")
+		}
+		if paid.Sign() > 0 {
+			m.evals["C02"]++
+		}
+		return
+	}
+
+	// escrow and fee collector: every step
+	if d := new(big.Int).Sub(esc, pre.esc); d.Cmp(expEsc) != 0 {
+		m.fail("C02", "%sescrow moved by %s in a %s step, the requests issued/answered/expired explain %s", stepTag, d, o.Kind, expEsc)
+	}
+	if d := new(big.Int).Sub(feeColl, pre.fee); d.Cmp(expFee) != 0 {
+		m.fail("C02", "%sfee collector moved by %s, the tax of the step is %s", stepTag, d, expFee)
+	}
+	// earnings: only the answered provider's record moves, by fee - tax
+	provs := map[string]bool{}
+	for p := range pre.snap.Earned {
+		provs[p] = true
+	}
+	for p := range s.Earned {
+		provs[p] = true
+	}
+	for p := range expEarn {
+		provs[p] = true
+	}
+	for _, p := range sortedStrs(provs) {
+		x, y, e := pre.snap.Earned[p], s.Earned[p], expEarn[p]
+		if x == nil {
+			x = big0()
+		}
+		if y == nil {
+			y = big0()
+		}
+		if e == nil {
+			e = big0()
+		}
+		if d := new(big.Int).Sub(y, x); d.Cmp(e) != 0 {
+			m.fail("C02", "%searnings of provider %d moved by %s, settlements of the step give %s", stepTag, a.atomOfAddr([]byte(p)), d, e)
+		}
+	}
+	// ordinary accounts: in the steps that settle or issue, every delta is explained
+	if moneyStep {
+		ats := map[int64]bool{}
+		for at := range bal {
+			ats[at] = true
+		}
+		for at := range pre.bal {
+			ats[at] = true
+		}
+		for at := range expBal {
+			ats[at] = true
+		}
+		var l []int64
+		for at := range ats {
+			l = append(l, at)
+		}
+		sort.Slice(l, func(i, j int) bool { return l[i] < l[j] })
+		for _, at := range l {
+			d := new(big.Int).Sub(getBal(bal, at), getBal(pre.bal, at))
+			if d.Cmp(getBal(expBal, at)) != 0 {
+				m.fail("C02", "%sbalance of %d moved by %s in a %s step, its debits/refunds give %s", stepTag, at, d, o.Kind, getBal(expBal, at))
+			}
+		}
+	}
+	m.evals["C02"] += nontrivial
+}
+
+func indexOf(l []string, x string) (int, bool) {
+	for i, y := range l {
+		if y == x {
+			return i, true
+		}
+	}
+	return -1, false
+}
+
+// ---------------------------------------------------------------------------
+// C04
+// ---------------------------------------------------------------------------
+
+func (m *Monitors) c04(o *Op, res string, f *stepFacts, pre *Pre, s *Snap, dep, sup *big.Int) {
+	st := m.rel
+	a := m.r.a
+	// expected failures of the step
+	want := map[string]bool{}
+	if f.answered != "" && f.malf {
+		want[f.answered] = true
+	}
+	if f.isEB {
+		for _, rid := range pre.snap.ActID {
+			q, ok := pre.snap.Reqs[rid]
+			if !ok || q.ExpirationHeight != f.H {
+				continue
+			}
+			rc, ok := pre.snap.Ctxs[ridCtx(rid)]
+			if !ok || rc.SuperMode {
+				continue
+			}
+			want[rid] = true
+		}
+	}
+	got := map[string]int{}
+	for _, e := range m.r.lastSlash {
+		got[string(hexUpperToBytes(e.Rid))]++
+	}
+	for rid := range want {
+		if got[rid] != 1 {
+			m.fail("C04", "%s%d slash events for the failed request %s", m.tagCtx(ridCtx(rid)), got[rid], ridLine([]byte(rid)))
+		}
+	}
+	for rid, n := range got {
+		if !want[rid] {
+			why := "which did not fail in this step"
+			if len(rid) == 58 {
+				if rc, ok := pre.snap.Ctxs[ridCtx(rid)]; ok && rc.SuperMode && f.isEB {
+					why = "a super-mode time-out"
+				}
+				m.fail("C04", "%s%d slash events for request %s, %s", m.tagCtx(ridCtx(rid)), n, ridLine([]byte(rid)), why)
+			} else {
+				m.fail("C04", "slash event with unreadable request id %x", rid)
+			}
+		}
+	}
+	// effect: sequential floor(deposit * fraction) per binding, in event order
+	cur := map[bindKey]*big.Int{}
+	disabled := map[bindKey]bool{}
+	total := big0()
+	for _, e := range m.r.lastSlash {
+		rid := string(hexUpperToBytes(e.Rid))
+		if len(rid) != 58 {
+			continue
+		}
+		t := st.reqs[rid]
+		if t == nil {
+			continue
+		}
+		k := bindKey{t.svc, t.provider}
+		b, ok := pre.snap.Binds[k]
+		if !ok {
+			m.fail("C04", "%sslash of request %s whose binding does not exist", m.tagCtx(ridCtx(rid)), ridLine([]byte(rid)))
+			continue
+		}
+		if cur[k] == nil {
+			cur[k] = new(big.Int).Set(amountOf(b.Deposit))
+		}
+		amt := floorMul(cur[k], m.r.cfg.Slash)
+		if amt.String() != e.Amt {
+			m.fail("C04", "%sslash of request %s took %s, floor(%s * %s) = %s", m.tagCtx(ridCtx(rid)), ridLine([]byte(rid)), e.Amt, cur[k], m.r.cfg.Slash, amt)
+		}
+		cur[k].Sub(cur[k], amt)
+		total.Add(total, amt)
+		if price, ok := priceOfText(b.Pricing); ok && cur[k].Cmp(m.minDeposit(price)) < 0 {
+			disabled[k] = true
+		}
+		m.evals["C04"]++
+	}
+	// deposits, availability and disabled time of every binding
+	bindingStep := res == "ok" && (o.Kind == "bind" || o.Kind == "update" || o.Kind == "enable" || o.Kind == "disable" || o.Kind == "refunddep")
+	if !bindingStep {
+		for k, b := range pre.snap.Binds {
+			nb, ok := s.Binds[k]
+			if !ok {
+				continue // C15
+			}
+			wantDep := amountOf(b.Deposit)
+			if cur[k] != nil {
+				wantDep = cur[k]
+			}
+			name := fmt.Sprintf("%s/%d", k.Svc, a.atomOfAddr([]byte(k.Prov)))
+			if amountOf(nb.Deposit).Cmp(wantDep) != 0 {
+				m.fail("C04", "deposit of %s went from %s to %s, the slashes of the step leave %s", name, amountOf(b.Deposit), amountOf(nb.Deposit), wantDep)
+			}
+			wantAvail := b.Available && !disabled[k]
+			if nb.Available != wantAvail {
+				m.fail("C04", "binding %s available=%v after the step, expected %v (deposit %s)", name, nb.Available, wantAvail, wantDep)
+			}
+			if b.Available && !wantAvail {
+				if nb.DisabledTime.UnixNano() != pre.now || nb.DisabledTime.IsZero() {
+					m.fail("C04", "binding %s disabled by a slash with disabled time %v, block time %v", name, nb.DisabledTime, f.now)
+				}
+			} else if !nb.DisabledTime.Equal(b.DisabledTime) {
+				m.fail("C04", "disabled time of %s changed without a disabling slash", name)
+			}
+		}
+		if d := new(big.Int).Sub(pre.dep, dep); d.Cmp(total) != 0 {
+			m.fail("C04", "deposit account fell by %s, slashed %s", d, total)
+		}
+	}
+	if d := new(big.Int).Sub(pre.sup, sup); d.Cmp(total) != 0 {
+		m.fail("C04", "total supply fell by %s, slashed %s", d, total)
+	}
+}
+
+func hexUpperToBytes(s string) []byte {
+	var b []byte
+	if _, err := fmt.Sscanf(strings.ToLower(s), "%x", &b); err != nil {
+		return []byte("?" + s)
+	}
+	return b
+}
+
+// ---------------------------------------------------------------------------
+// C05
+// ---------------------------------------------------------------------------
+
+// rightful returns whether the signer is the rightful party of a message op in
+// the pre-state, and whether the question is meaningful (target exists).
+func (m *Monitors) rightful(o *Op, pre *Pre) (ok bool, meaningful bool, what string) {
+	a := m.r.a
+	ps := pre.snap
+	signer := string(a.addr(o.signer()))
+	svc := a.svcName[o.Svc]
+	if o.NameOverride != "" {
+		svc = o.NameOverride
+	}
+	switch o.Kind {
+	case "update", "disable", "enable", "refunddep":
+		b, found := ps.Binds[bindKey{svc, string(a.addr(o.Prov))}]
+		if !found {
+			return false, false, ""
+		}
+		return string(b.Owner) == signer, true, "binding owner"
+	case "bind":
+		if svc == modSvc {
+			return false, true, "a service reserved by a module"
+		}
+		own, found := ps.Owners[string(a.addr(o.Prov))]
+		if !found {
+			return true, false, ""
+		}
+		return own == signer, true, "provider's owner"
+	case "withdraw":
+		if o.Prov == 0 {
+			return true, false, ""
+		}
+		own, found := ps.Owners[string(a.addr(o.Prov))]
+		if !found {
+			// a provider nobody owns has no rightful withdrawer
+			return false, true, "provider's owner (provider unowned)"
+		}
+		return own == signer, true, "provider's owner"
+	case "pause", "start", "kill", "updctx":
+		rc, found := ps.Ctxs[string(ctxID(o.Tx, o.Idx))]
+		if !found {
+			return false, false, ""
+		}
+		if rc.ModuleName != "" {
+			return false, true, "nobody (module-created context)"
+		}
+		return string(rc.Consumer) == signer, true, "context consumer"
+	case "respond":
+		q, found := ps.Reqs[string(reqID(o.Tx, o.Idx, o.Batch, o.RHeight, o.RIndex))]
+		if !found {
+			return false, false, ""
+		}
+		return string(q.Provider) == signer, true, "request provider"
+	}
+	return true, false, ""
+}
+
+func (m *Monitors) c05(o *Op, res string, f *stepFacts, pre *Pre, s *Snap, bal map[int64]*big.Int) {
+	a := m.r.a
+	switch o.Kind {
+	case "endblock":
+		payers := map[int64]bool{}
+		for _, rid := range f.issued {
+			if t := m.rel.reqs[rid]; t != nil && t.fee.Sign() > 0 {
+				payers[a.atomOfAddr([]byte(t.consumer))] = true
+			}
+		}
+		fell := 0
+		for _, at := range sortedInt64(pre.bal) {
+			if getBal(bal, at).Cmp(pre.bal[at]) < 0 {
+				fell++
+				if !payers[at] {
+					m.fail("C05", "EndBlock lowered the balance of %d (%s -> %s), which started no paid batch in this block", at, pre.bal[at], getBal(bal, at))
+				}
+			}
+		}
+		if fell > 0 {
+			m.evals["C05"]++
+		}
+		return
+	case "query", "export":
+		return
+	}
+	if o.Kind != "transfer" && o.Kind != "modcall" {
+		ok, meaningful, what := m.rightful(o, pre)
+		if meaningful && !ok {
+			m.evals["C05"]++
+			if res == "ok" {
+				m.fail("C05", "%s signed by %d succeeded; the rightful party is the %s", o.Kind, o.signer(), what)
+			}
+		}
+	}
+	if res != "ok" {
+		// nothing was written: every balance is as before
+		for _, at := range sortedInt64(pre.bal) {
+			if getBal(bal, at).Cmp(pre.bal[at]) != 0 {
+				m.fail("C05", "failed %s changed the balance of %d", o.Kind, at)
+			}
+		}
+		return
+	}
+	signer := o.signer()
+	if o.Kind == "modcall" {
+		signer = -999 // keeper API: debits nobody
+	}
+	lowered := false
+	for _, at := range sortedInt64(pre.bal) {
+		if getBal(bal, at).Cmp(pre.bal[at]) < 0 {
+			lowered = true
+			if at != signer {
+				tag := ""
+				if f.k3step {
+					tag = "K3: "
+				}
+				m.fail("C05", "%s%s signed by %d lowered the balance of %d (%s -> %s)", tag, o.Kind, o.signer(), at, pre.bal[at], getBal(bal, at))
+			}
+		}
+	}
+	if lowered {
+		m.evals["C05"]++
+	}
+}
+
+// ---------------------------------------------------------------------------
+// C06 (and the plan shared with C09)
+// ---------------------------------------------------------------------------
+
+// planBatches recomputes, for every context with a new-batch entry due in this
+// EndBlock, what the handler has to decide. Inputs: the contexts as they stood
+// before the EndBlock, the binding records AFTER it (bindings change only by
+// the slashes of the expiry phase, which precedes every new batch), the
+// published pricing text, the volumes and block time (constant inside an
+// EndBlock), the balances after the expiry refunds, debited in context-id order.
+func (m *Monitors) planBatches(f *stepFacts, pre *Pre, s *Snap, refunds map[int64]*big.Int) []*batchPlan {
+	a := m.r.a
+	ps := pre.snap
+	due := map[string]types.RequestContext{}
+	for _, e := range ps.NewQ {
+		if e.H == f.H {
+			if rc, ok := ps.Ctxs[e.ID]; ok {
+				due[e.ID] = rc
+			}
+		}
+	}
+	// contexts whose batch expires now and whose next batch is due at once (frequency = timeout)
+	for _, e := range ps.ExpQ {
+		if e.H != f.H {
+			continue
+		}
+		rc, ok := ps.Ctxs[e.ID]
+		if !ok {
+			continue
+		}
+		if rc.State == types.RUNNING && rc.Repeated && (rc.RepeatedTotal < 0 || int64(rc.BatchCounter) < rc.RepeatedTotal) &&
+			f.H-rc.Timeout+int64(rc.RepeatedFrequency) == f.H {
+			rc.BatchState = types.BATCHCOMPLETED
+			due[e.ID] = rc
+		}
+	}
+	ids := make([]string, 0, len(due))
+	for id := range due {
+		ids = append(ids, id)
+	}
+	sort.Strings(ids)
+	sim := map[int64]*big.Int{}
+	for at, b := range pre.bal {
+		sim[at] = new(big.Int).Set(b)
+	}
+	for at, x := range refunds {
+		addTo(sim, at, x)
+	}
+	var plans []*batchPlan
+	for _, id := range ids {
+		rc := due[id]
+		p := &batchPlan{id: id, rc: rc, total: big0()}
+		plans = append(plans, p)
+		switch {
+		case rc.State != types.RUNNING:
+			p.kind = "idle"
+			continue
+		case rc.Repeated && rc.RepeatedTotal > 0 && int64(rc.BatchCounter) >= rc.RepeatedTotal:
+			p.kind = "complete"
+			continue
+		}
+		capAmt := amountOf(rc.ServiceFeeCap)
+		for _, prov := range rc.Providers {
+			b, ok := s.Binds[bindKey{rc.ServiceName, string(prov)}]
+			if !ok || !b.Available || b.QoS > uint64(rc.Timeout) {
+				continue
+			}
+			price, _, ok := feeFromText(b.Pricing, f.now, ps.Vols[[3]string{string(rc.Consumer), rc.ServiceName, string(prov)}])
+			if !ok {
+				p.reason = "pricing text unreadable"
+				continue
+			}
+			if price.BigInt().Cmp(capAmt) > 0 {
+				continue
+			}
+			p.provs = append(p.provs, string(prov))
+			p.fees = append(p.fees, price.BigInt())
+			p.total.Add(p.total, price.BigInt())
+		}
+		cons := a.atomOfAddr(rc.Consumer)
+		switch {
+		case len(p.provs) == 0 || len(p.provs) < int(rc.ResponseThreshold):
+			p.kind = "skip"
+		case !rc.SuperMode && getBal(sim, cons).Cmp(p.total) < 0:
+			p.kind = "pause"
+		default:
+			p.kind = "issue"
+			if !rc.SuperMode {
+				addTo(sim, cons, new(big.Int).Neg(p.total))
+			}
+		}
+	}
+	return plans
+}
+
+func (m *Monitors) c06(f *stepFacts, pre *Pre, s *Snap, plans []*batchPlan) {
+	a := m.r.a
+	newOf := map[string][]string{}
+	for _, rid := range f.issued {
+		newOf[ridCtx(rid)] = append(newOf[ridCtx(rid)], rid)
+	}
+	planned := map[string]bool{}
+	for _, p := range plans {
+		planned[p.id] = true
+		tag := m.tagCtx(p.id)
+		name := ctxLine([]byte(p.id))
+		got := newOf[p.id]
+		post, exists := s.Ctxs[p.id]
+		switch p.kind {
+		case "idle", "complete":
+			if len(got) != 0 {
+				m.fail("C06", "%scontext %s (%s) got %d requests", tag, name, p.kind, len(got))
+			}
+			continue
+		}
+		m.evals["C06"]++
+		if !exists {
+			m.fail("C06", "%scontext %s disappeared in its new-batch EndBlock", tag, name)
+			continue
+		}
+		elig := make([]int64, len(p.provs))
+		for i, pr := range p.provs {
+			elig[i] = a.atomOfAddr([]byte(pr))
+		}
+		switch p.kind {
+		case "skip":
+			if len(got) != 0 {
+				m.fail("C06", "%scontext %s: eligible set %v is empty or below threshold %d, yet %d requests were issued", tag, name, elig, p.rc.ResponseThreshold, len(got))
+			}
+			if post.BatchCounter != p.rc.BatchCounter+1 || post.BatchRequestCount != 0 || post.State != types.RUNNING {
+				m.fail("C06", "%scontext %s: batch should be skipped (counter %d -> %d, 0 requests), found counter %d, %d requests, state %v", tag, name,
+					p.rc.BatchCounter, p.rc.BatchCounter+1, post.BatchCounter, post.BatchRequestCount, post.State)
+			}
+		case "pause":
+			if len(got) != 0 {
+				m.fail("C06", "%scontext %s: consumer cannot pay %s, yet %d requests were issued", tag, name, p.total, len(got))
+			}
+			if post.State != types.PAUSED || post.BatchCounter != p.rc.BatchCounter {
+				m.fail("C06", "%scontext %s: consumer cannot pay %s: expected paused with counter %d, found state %v counter %d", tag, name, p.total,
+					p.rc.BatchCounter, post.State, post.BatchCounter)
+			}
+		case "issue":
+			if post.State != types.RUNNING || post.BatchCounter != p.rc.BatchCounter+1 {
+				m.fail("C06", "%scontext %s: a batch to %v (total %s) was due, found state %v counter %d -> %d", tag, name, elig, p.total, post.State, p.rc.BatchCounter, post.BatchCounter)
+			}
+			if len(got) != len(p.provs) {
+				var have []int64
+				for _, rid := range got {
+					have = append(have, a.atomOfAddr(s.Reqs[rid].Provider))
+				}
+				m.fail("C06", "%scontext %s: eligible providers %v, requests went to %v", tag, name, elig, have)
+				continue
+			}
+			for i, pr := range p.provs {
+				want := string(types.GenerateRequestID([]byte(p.id), p.rc.BatchCounter+1, f.H, int16(i)))
+				q, ok := s.Reqs[want]
+				if !ok {
+					m.fail("C06", "%scontext %s: no request with id (%s) for eligible provider #%d", tag, name, ridLine([]byte(want)), i)
+					continue
+				}
+				if !bytes.Equal(q.Provider, []byte(pr)) {
+					m.fail("C06", "%srequest %s goes to %d, eligible provider #%d is %d", tag, ridLine([]byte(want)), a.atomOfAddr(q.Provider), i, elig[i])
+				}
+				wantFee := p.fees[i]
+				if p.rc.SuperMode {
+					wantFee = big0()
+				}
+				if amountOf(q.ServiceFee).Cmp(wantFee) != 0 {
+					m.fail("C06", "%srequest %s carries fee %s, price of the provider is %s", tag, ridLine([]byte(want)), amountOf(q.ServiceFee), wantFee)
+				}
+				if q.RequestHeight != f.H || q.ExpirationHeight != f.H+p.rc.Timeout || q.RequestContextBatchCounter != p.rc.BatchCounter+1 ||
+					!bytes.Equal(q.RequestContextId, []byte(p.id)) {
+					m.fail("C06", "%srequest %s has height/expiry/batch %d/%d/%d, expected %d/%d/%d", tag, ridLine([]byte(want)), q.RequestHeight, q.ExpirationHeight,
+						q.RequestContextBatchCounter, f.H, f.H+p.rc.Timeout, p.rc.BatchCounter+1)
+				}
+			}
+		}
+	}
+	// requests of contexts that had no new-batch entry due
+	for id, got := range newOf {
+		if !planned[id] && f.isEB {
+			m.fail("C06", "%scontext %s had no batch due in this block and got %d requests", m.tagCtx(id), ctxLine([]byte(id)), len(got))
+		}
+	}
+	// fee <= cap in force at issue
+	for _, rid := range f.issued {
+		rc, ok := s.Ctxs[ridCtx(rid)]
+		if !ok {
+			continue
+		}
+		if amountOf(s.Reqs[rid].ServiceFee).Cmp(amountOf(rc.ServiceFeeCap)) > 0 {
+			m.fail("C06", "%srequest %s carries fee %s above the cap %s", m.tagCtx(ridCtx(rid)), ridLine([]byte(rid)), amountOf(s.Reqs[rid].ServiceFee), amountOf(rc.ServiceFeeCap))
+		}
+	}
+}
+
+// ---------------------------------------------------------------------------
+// C07
+// ---------------------------------------------------------------------------
+
+func (m *Monitors) c07(o *Op, res string, f *stepFacts, pre *Pre, s *Snap, bal map[int64]*big.Int, refunds map[int64]*big.Int) {
+	a := m.r.a
+	debit := map[int64]*big.Int{}
+	tagOf := map[int64]string{}
+	for _, rid := range f.issued {
+		t := m.rel.reqs[rid]
+		if t == nil {
+			continue
+		}
+		tag := m.tagCtx(ridCtx(rid))
+		q := s.Reqs[rid]
+		cons := a.atomOfAddr([]byte(t.consumer))
+		if tag != "" {
+			tagOf[cons] = tag
+		}
+		if debit[cons] == nil {
+			debit[cons] = big0()
+		}
+		m.evals["C07"]++
+		if t.super {
+			if amountOf(q.ServiceFee).Sign() != 0 {
+				m.fail("C07", "%ssuper-mode request %s carries fee %s", tag, ridLine([]byte(rid)), amountOf(q.ServiceFee))
+			}
+			continue
+		}
+		b, ok := s.Binds[bindKey{t.svc, t.provider}]
+		if !ok {
+			m.fail("C07", "%srequest %s to a provider without binding", tag, ridLine([]byte(rid)))
+			continue
+		}
+		vol := pre.snap.Vols[[3]string{t.consumer, t.svc, t.provider}]
+		want, base, ok := feeFromText(b.Pricing, f.now, vol)
+		if !ok {
+			m.fail("C07", "%spublished pricing of %s/%d unreadable", tag, t.svc, a.atomOfAddr([]byte(t.provider)))
+			continue
+		}
+		debit[cons].Add(debit[cons], want.BigInt())
+		if amountOf(q.ServiceFee).Cmp(want.BigInt()) != 0 {
+			m.fail("C07", "%srequest %s carries fee %s; published pricing (base %s) at time %d, volume %d gives %s", tag, ridLine([]byte(rid)),
+				amountOf(q.ServiceFee), base, pre.now, vol, want)
+		}
+		ceil := base.BigInt()
+		if ceil.Sign() <= 0 {
+			ceil = big.NewInt(1)
+		}
+		if amountOf(q.ServiceFee).Cmp(ceil) > 0 {
+			m.fail("C07", "%srequest %s carries fee %s above max(base price %s, 1)", tag, ridLine([]byte(rid)), amountOf(q.ServiceFee), base)
+		}
+	}
+	// the consumer's debit is the sum of the recomputed fees
+	if f.isEB {
+		for at, want := range debit {
+			got := new(big.Int).Sub(getBal(pre.bal, at), getBal(bal, at))
+			got.Add(got, getBal(refunds, at))
+			if got.Cmp(want) != 0 {
+				m.fail("C07", "%sconsumer %d was debited %s for this block's batches, the recomputed fees sum to %s", tagOf[at], at, got, want)
+			}
+		}
+	}
+	// volumes move by one per accepted response and in no other way
+	keys := map[[3]string]bool{}
+	for k := range pre.snap.Vols {
+		keys[k] = true
+	}
+	for k := range s.Vols {
+		keys[k] = true
+	}
+	var bump [3]string
+	haveBump := false
+	if f.answered != "" {
+		if t := m.rel.reqs[f.answered]; t != nil {
+			bump = [3]string{t.consumer, t.svc, t.provider}
+			haveBump = true
+			keys[bump] = true
+			m.evals["C07"]++
+		}
+	}
+	for k := range keys {
+		want := pre.snap.Vols[k]
+		if haveBump && k == bump {
+			want++
+		}
+		if s.Vols[k] != want {
+			tag := ""
+			if f.k3step {
+				tag = "K3: "
+			}
+			m.fail("C07", "%svolume of (%d,%s,%d) is %d after a %s step, expected %d", tag, a.atomOfAddr([]byte(k[0])), k[1], a.atomOfAddr([]byte(k[2])), s.Vols[k], o.Kind, want)
+		}
+	}
+}
+
+// ---------------------------------------------------------------------------
+// C08
+// ---------------------------------------------------------------------------
+
+func (m *Monitors) c08respond(o *Op, res string, f *stepFacts, pre *Pre, s *Snap) {
+	st := m.rel
+	a := m.r.a
+	if o.Kind == "respond" {
+		rid := string(reqID(o.Tx, o.Idx, o.Batch, o.RHeight, o.RIndex))
+		t := st.reqs[rid]
+		tag := m.tagCtx(ridCtx(rid))
+		// expectation from the history alone: issued, not settled, not past its expiry block, sent by its provider
+		want := o.OK && t != nil && t.settled == "" && f.H <= t.exp && string(a.addr(o.Who)) == t.provider
+		why := "acceptable"
+		switch {
+		case !o.OK:
+			why = "stateless-invalid"
+		case t == nil:
+			why = "to a request that was never issued"
+		case t.settled != "":
+			why = "to a request already " + t.settled
+		case f.H > t.exp:
+			why = fmt.Sprintf("after the expiry block %d", t.exp)
+		case string(a.addr(o.Who)) != t.provider:
+			why = "not from the request's provider"
+		}
+		if t != nil {
+			m.evals["C08"]++
+		}
+		if (res == "ok") != want {
+			m.fail("C08", "%sresponse %s at height %d (%s) -> %s", tag, ridLine([]byte(rid)), f.H, why, res)
+		}
+		if res == "panic" {
+			m.fail("C08", "%sresponse %s panicked", tag, ridLine([]byte(rid)))
+		}
+		// the store's own view must agree with the history's
+		_, hasReq := pre.snap.Reqs[rid]
+		_, active := indexOf(pre.snap.ActID, rid)
+		if t != nil && t.settled == "" && f.H <= t.exp && !(hasReq && active) {
+			m.fail("C08", "%srequest %s (expiry block %d) is not pending at height %d", tag, ridLine([]byte(rid)), t.exp, f.H)
+		}
+		if res == "ok" {
+			if _, ok := s.Resps[rid]; !ok {
+				m.fail("C08", "%saccepted response to %s not stored", tag, ridLine([]byte(rid)))
+			}
+		}
+	}
+}
+
+// c08window: pending exactly while unsettled and height <= expiry; all records gone after the expiry block.
+// Runs after C02 has recorded the settlements of the step.
+func (m *Monitors) c08window(f *stepFacts, s *Snap) {
+	st := m.rel
+	hNow := m.r.height
+	act := map[string]bool{}
+	for _, rid := range s.ActID {
+		act[rid] = true
+	}
+	ab := map[string]bool{}
+	for _, e := range s.ActBind {
+		ab[e.Rid] = true
+	}
+	for rid, t := range st.reqs {
+		if t.gone {
+			continue
+		}
+		tag := m.tagCtx(ridCtx(rid))
+		_, has := s.Reqs[rid]
+		if hNow <= t.exp {
+			if !has {
+				m.fail("C08", "%srequest %s removed at height %d, before its expiry block %d ended", tag, ridLine([]byte(rid)), hNow, t.exp)
+				t.gone = true
+				continue
+			}
+			if t.settled == "" && !(act[rid] && ab[rid]) {
+				m.fail("C08", "%sunanswered request %s not pending at height %d, expiry block %d", tag, ridLine([]byte(rid)), hNow, t.exp)
+			}
+		} else {
+			_, hasResp := s.Resps[rid]
+			if f.isEB && f.H == t.exp {
+				m.evals["C08"]++
+			}
+			if has || act[rid] || ab[rid] || hasResp {
+				m.fail("C08", "%srequest %s still stored (record=%v pending=%v/%v response=%v) at height %d, after its expiry block %d", tag, ridLine([]byte(rid)), has, act[rid], ab[rid], hasResp, hNow, t.exp)
+			}
+			t.gone = true
+			if t.settled == "" {
+				t.settled = "lost"
+				m.fail("C08", "%srequest %s passed its expiry block %d without being answered or expired", tag, ridLine([]byte(rid)), t.exp)
+			}
+		}
+	}
+}
+
+// ---------------------------------------------------------------------------
+// C09
+// ---------------------------------------------------------------------------
+
+func addrsEqual(x, y []sdk.AccAddress) bool {
+	if len(x) != len(y) {
+		return false
+	}
+	for i := range x {
+		if !bytes.Equal(x[i], y[i]) {
+			return false
+		}
+	}
+	return true
+}
+
+func staticDiff(x, y types.RequestContext) string {
+	var d []string
+	if x.ServiceName != y.ServiceName {
+		d = append(d, "service")
+	}
+	if !bytes.Equal(x.Consumer, y.Consumer) {
+		d = append(d, "consumer")
+	}
+	if x.Input != y.Input {
+		d = append(d, "input")
+	}
+	if x.SuperMode != y.SuperMode {
+		d = append(d, "super-mode")
+	}
+	if x.Repeated != y.Repeated {
+		d = append(d, "repeated")
+	}
+	if x.ModuleName != y.ModuleName {
+		d = append(d, "module")
+	}
+	return strings.Join(d, ",")
+}
+
+func termsDiff(x, y types.RequestContext) string {
+	var d []string
+	if !addrsEqual(x.Providers, y.Providers) {
+		d = append(d, "providers")
+	}
+	if !x.ServiceFeeCap.IsEqual(y.ServiceFeeCap) {
+		d = append(d, "cap")
+	}
+	if x.Timeout != y.Timeout {
+		d = append(d, "timeout")
+	}
+	if x.RepeatedFrequency != y.RepeatedFrequency {
+		d = append(d, "frequency")
+	}
+	if x.RepeatedTotal != y.RepeatedTotal {
+		d = append(d, "total")
+	}
+	if x.ResponseThreshold != y.ResponseThreshold {
+		d = append(d, "threshold")
+	}
+	return strings.Join(d, ",")
+}
+
+func bookDiff(x, y types.RequestContext) string {
+	var d []string
+	if x.BatchState != y.BatchState {
+		d = append(d, "batch-state")
+	}
+	if x.BatchRequestCount != y.BatchRequestCount {
+		d = append(d, "request-count")
+	}
+	if x.BatchResponseCount != y.BatchResponseCount {
+		d = append(d, "response-count")
+	}
+	if x.BatchResponseThreshold != y.BatchResponseThreshold {
+		d = append(d, "batch-threshold")
+	}
+	return strings.Join(d, ",")
+}
+
+func (m *Monitors) c09(o *Op, res string, f *stepFacts, pre *Pre, s *Snap, plans []*batchPlan) {
+	ps := pre.snap
+	ids := map[string]bool{}
+	for id := range ps.Ctxs {
+		ids[id] = true
+	}
+	for id := range s.Ctxs {
+		ids[id] = true
+	}
+	target := ""
+	switch o.Kind {
+	case "call", "modcall", "pause", "start", "kill", "updctx":
+		target = string(ctxID(o.Tx, o.Idx))
+	case "respond":
+		target = string(ctxID(o.Tx, o.Idx))
+	}
+	planOf := map[string]*batchPlan{}
+	for _, p := range plans {
+		planOf[p.id] = p
+	}
+	expiring := map[string]bool{}
+	if f.isEB {
+		for _, e := range ps.ExpQ {
+			if e.H == f.H {
+				expiring[e.ID] = true
+			}
+		}
+	}
+	for _, id := range sortedStrs(ids) {
+		x, inPre := ps.Ctxs[id]
+		y, inPost := s.Ctxs[id]
+		tag := m.tagCtx(id)
+		name := ctxLine([]byte(id))
+		switch {
+		case !inPre && inPost:
+			m.evals["C09"]++
+			if !((o.Kind == "call" || o.Kind == "modcall") && res == "ok" && id == target) {
+				m.fail("C09", "%scontext %s appeared in a %s step", tag, name, o.Kind)
+				continue
+			}
+			if y.BatchCounter != 0 || y.State != types.RUNNING || y.BatchState != types.BATCHCOMPLETED || y.BatchRequestCount != 0 || y.BatchResponseCount != 0 {
+				m.fail("C09", "%snew context %s starts with counter %d state %v batch %v %d/%d", tag, name, y.BatchCounter, y.State, y.BatchState, y.BatchResponseCount, y.BatchRequestCount)
+			}
+			continue
+		case inPre && !inPost:
+			m.evals["C09"]++
+			if !f.isEB {
+				m.fail("C09", "%scontext %s removed by a %s step", tag, name, o.Kind)
+				continue
+			}
+			finished := x.State == types.COMPLETED || (x.State == types.RUNNING && (!x.Repeated || (x.RepeatedTotal >= 0 && int64(x.BatchCounter) >= x.RepeatedTotal)))
+			switch {
+			case expiring[id] && finished:
+			case planOf[id] != nil && planOf[id].kind == "complete":
+			default:
+				m.fail("C09", "%scontext %s (state %v, repeated %v, batch %d of %d) removed by an EndBlock that neither expired its last batch nor found its total reached", tag, name, x.State, x.Repeated, x.BatchCounter, x.RepeatedTotal)
+			}
+			continue
+		}
+		sd, td, bd := staticDiff(x, y), termsDiff(x, y), bookDiff(x, y)
+		stateCh := x.State != y.State
+		ctrCh := x.BatchCounter != y.BatchCounter
+		if sd == "" && td == "" && bd == "" && !stateCh && !ctrCh {
+			continue
+		}
+		m.evals["C09"]++
+		if sd != "" {
+			m.fail("C09", "%sstatic fields of context %s changed: %s", tag, name, sd)
+		}
+		if y.BatchCounter < x.BatchCounter || y.BatchCounter > x.BatchCounter+1 {
+			m.fail("C09", "%scounter of context %s went from %d to %d", tag, name, x.BatchCounter, y.BatchCounter)
+		}
+		if x.State == types.COMPLETED && (stateCh || td != "" || ctrCh) {
+			m.fail("C09", "%scompleted context %s changed (state %v -> %v, terms [%s], counter %d -> %d) in a %s step", tag, name, x.State, y.State, td, x.BatchCounter, y.BatchCounter, o.Kind)
+			continue
+		}
+		bad := func(what string) {
+			m.fail("C09", "%scontext %s: %s step (%s) is not an allowed transition: state %v -> %v, counter %d -> %d, terms [%s], bookkeeping [%s]", tag, name, o.Kind, what,
+				x.State, y.State, x.BatchCounter, y.BatchCounter, td, bd)
+		}
+		if res != "ok" {
+			bad("failed op changed a context")
+			continue
+		}
+		if !f.isEB && id != target {
+			bad("not the target of the op")
+			continue
+		}
+		switch o.Kind {
+		case "pause":
+			if !(x.State == types.RUNNING && x.Repeated && y.State == types.PAUSED) || td != "" || bd != "" || ctrCh {
+				bad("pause moves only running+repeated to paused")
+			}
+		case "start":
+			if !(x.State == types.PAUSED && y.State == types.RUNNING) || td != "" || bd != "" || ctrCh {
+				bad("start moves only paused to running")
+			}
+		case "kill":
+			if !(x.Repeated && y.State == types.COMPLETED) || td != "" || bd != "" || ctrCh {
+				bad("kill moves only a repeated context to completed")
+			}
+		case "updctx":
+			if stateCh || bd != "" || ctrCh || strings.Contains(td, "threshold") {
+				bad("update changes only providers, cap, timeout, frequency, total")
+			}
+		case "respond":
+			okBook := y.BatchResponseCount == x.BatchResponseCount+1 && y.BatchRequestCount == x.BatchRequestCount && y.BatchResponseThreshold == x.BatchResponseThreshold
+			complete := y.BatchResponseCount == y.BatchRequestCount
+			okState := (complete && y.BatchState == types.BATCHCOMPLETED) || (!complete && y.BatchState == x.BatchState)
+			if stateCh || td != "" || ctrCh || !okBook || !okState {
+				bad("a response moves only the response count and completes the batch when all answered")
+			}
+		case "endblock":
+			if td != "" {
+				bad("EndBlock changes no terms")
+			}
+			if stateCh {
+				p := planOf[id]
+				if !(x.State == types.RUNNING && y.State == types.PAUSED && !ctrCh && p != nil && p.kind != "idle" && p.kind != "complete" && !x.SuperMode) {
+					bad("only a running context with a batch due that cannot be paid becomes paused")
+				} else if y.BatchState != types.BATCHCOMPLETED {
+					bad("paused for funds leaves the batch completed")
+				}
+			}
+			if ctrCh {
+				if x.State != types.RUNNING || y.State != types.RUNNING {
+					bad("a batch is started only while running")
+				}
+				if planOf[id] == nil {
+					bad("no new-batch entry was due")
+				}
+				if y.BatchState != types.BATCHRUNNING || y.BatchResponseCount != 0 || y.BatchResponseThreshold != y.ResponseThreshold {
+					bad("a started batch is running with 0 responses and the context's threshold")
+				}
+			} else if !stateCh {
+				// only the expiry of the batch may have touched the record
+				if !(expiring[id] && x.BatchState == types.BATCHRUNNING && y.BatchState == types.BATCHCOMPLETED && bd == "batch-state") {
+					bad("without a batch start only an expiring batch is completed")
+				}
+			}
+		default:
+			bad("this op never changes a context")
+		}
+	}
+}
+
+// ---------------------------------------------------------------------------
+// C10
+// ---------------------------------------------------------------------------
+
+func (m *Monitors) c10(o *Op, res string, f *stepFacts, pre *Pre, s *Snap) {
+	ps := pre.snap
+	for _, id := range sortedCtxIDs(s.Ctxs) {
+		y := s.Ctxs[id]
+		tag := m.tagCtx(id)
+		name := ctxLine([]byte(id))
+		t := m.ctxSeen[id]
+		x, inPre := ps.Ctxs[id]
+		if t == nil {
+			t = &ctxTrack{createdAt: f.H, lastStart: -1, maxTotal: 0}
+			m.ctxSeen[id] = t
+			if inPre {
+				t.createdAt = -1 // not seen being created (cannot happen in a history that starts empty)
+			}
+		}
+		// totals in force
+		if y.Repeated {
+			if y.RepeatedTotal < 0 {
+				t.unlimited = true
+			} else if y.RepeatedTotal > t.maxTotal {
+				t.maxTotal = y.RepeatedTotal
+			}
+		}
+		advanced := inPre && y.BatchCounter > x.BatchCounter
+		if !inPre && y.BatchCounter > 0 {
+			m.evals["C10"]++
+			m.fail("C10", "%scontext %s created with batch counter %d", tag, name, y.BatchCounter)
+		}
+		if advanced {
+			m.evals["C10"]++
+			if !f.isEB {
+				m.fail("C10", "%sbatch counter of %s advanced in a %s step", tag, name, o.Kind)
+			}
+			if h, ok := ps.ExpH[id]; ok && h != f.H {
+				m.fail("C10", "%sbatch %d of %s started at height %d while batch %d is in flight until %d", tag, y.BatchCounter, name, f.H, x.BatchCounter, h)
+			}
+			if t.lastStart >= 0 && t.steady && x.Repeated {
+				if want := t.lastStart + int64(t.freqAtLast); f.H != want {
+					m.fail("C10", "%scontext %s stayed running with timeout %d frequency %d: batch %d started at %d, batch %d at %d (expected %d)", tag, name,
+						t.toutAtLast, t.freqAtLast, x.BatchCounter, t.lastStart, y.BatchCounter, f.H, want)
+				}
+			}
+			t.lastStart = f.H
+			t.freqAtLast = y.RepeatedFrequency
+			t.toutAtLast = y.Timeout
+			t.steady = true
+		}
+		if !y.Repeated && y.BatchCounter > 1 {
+			m.fail("C10", "%sone-shot context %s has batch counter %d", tag, name, y.BatchCounter)
+		}
+		if y.Repeated && !t.unlimited && int64(y.BatchCounter) > t.maxTotal {
+			m.fail("C10", "%scontext %s: counter %d > max total %d", tag, name, y.BatchCounter, t.maxTotal)
+		}
+		if y.State != types.RUNNING || y.RepeatedFrequency != t.freqAtLast || y.Timeout != t.toutAtLast {
+			t.steady = false
+		}
+		// first batch: at the EndBlock of the creation block
+		if f.isEB && inPre && t.createdAt == f.H && x.State == types.RUNNING {
+			m.evals["C10"]++
+			if !(y.BatchCounter == 1 || (y.BatchCounter == 0 && y.State == types.PAUSED)) {
+				m.fail("C10", "%scontext %s was running at the end of its creation block %d and got no first batch (counter %d, state %v)", tag, name, f.H, y.BatchCounter, y.State)
+			}
+		}
+		if f.isEB && inPre && x.BatchCounter == 0 && advanced && t.createdAt >= 0 && t.createdAt != f.H && !t.restarted {
+			m.fail("C10", "%sfirst batch of %s started at %d, it was created (and never paused) in block %d", tag, name, f.H, t.createdAt)
+		}
+		if y.State != types.RUNNING {
+			t.restarted = true
+		}
+	}
+	// contexts removed in the EndBlock of their creation block while running: a one-shot cannot finish that fast
+	if f.isEB {
+		for id, x := range ps.Ctxs {
+			if _, ok := s.Ctxs[id]; ok {
+				continue
+			}
+			if t := m.ctxSeen[id]; t != nil && t.createdAt == f.H && x.State == types.RUNNING && x.BatchCounter == 0 {
+				m.evals["C10"]++
+				m.fail("C10", "%scontext %s removed at the end of its creation block without a first batch", m.tagCtx(id), ctxLine([]byte(id)))
+			}
+		}
+	}
+}
+
+// c16finished: the step-relational half of C16. When the expiry block of a batch ends, a context that
+// has finished (killed; one-shot; repeated with its total reached) is removed together with the batch.
+func (m *Monitors) c16finished(f *stepFacts, pre *Pre, s *Snap) {
+	if !f.isEB {
+		return
+	}
+	for _, e := range pre.snap.ExpQ {
+		if e.H != f.H {
+			continue
+		}
+		x, ok := pre.snap.Ctxs[e.ID]
+		if !ok {
+			continue
+		}
+		finished := x.State == types.COMPLETED || (x.State == types.RUNNING && (!x.Repeated || (x.RepeatedTotal >= 0 && int64(x.BatchCounter) >= x.RepeatedTotal)))
+		if _, still := s.Ctxs[e.ID]; finished && still {
+			m.fail("C16", "%scontext %s (state %v, repeated %v, batch %d of %d) has finished and is still stored after its batch's expiry block %d", m.tagCtx(e.ID),
+				ctxLine([]byte(e.ID)), x.State, x.Repeated, x.BatchCounter, x.RepeatedTotal, f.H)
+		}
+	}
+}
+
+func sortedCtxIDs(mp map[string]types.RequestContext) []string {
+	l := make([]string, 0, len(mp))
+	for k := range mp {
+		l = append(l, k)
+	}
+	sort.Strings(l)
+	return l
 }
